@@ -275,7 +275,15 @@ def fork_side(inp):
               'always': lambda: False,
               'never': lambda: True}[pred]()
         if not ok:
-            raise errors.ScriptExecutionError('fork predicate failed')
+            # an application's instruction fails with whatever exception its
+            # own code raises (a lookup in a table, an index, an assert ...):
+            # any of them ends the script
+            raise {'see': errors.ScriptExecutionError, 'key': KeyError,
+                   'index': IndexError, 'value': ValueError,
+                   'assert': AssertionError, 'type': TypeError,
+                   'lookup': LookupError, 'attr': AttributeError,
+                   'stop': StopIteration}[inp.get('raises', 'see')](
+                       'fork predicate failed')
     out = {'verdicts': [], 'compiled': {}, 'errors': []}
     targets = [b'\x01\x01' + bytes([code, 2]),
                b'\x01\x2b\x00\x04\x02\x01' + bytes([code, 1]) + b'\x01',
@@ -409,7 +417,11 @@ def judge_fork(ctx, rng, code, pred, nscripts, prefork=None):
         counts.append((f'd{cc}', cc))
     for k_, (txt, cc) in enumerate(counts):
         sources[f'count{k_}'] = f'{rng.choice((name, aliases[0]))} {txt}'
-    inp = {'code': code, 'pred': pred, 'name': name, 'aliases': aliases,
+    raises = rng.choice(('see', 'see', 'key', 'key', 'index', 'value',
+                         'assert', 'type', 'lookup', 'attr', 'stop'))
+    ctx.tab('fork_failure_raises', raises)
+    inp = {'raises': raises,
+           'code': code, 'pred': pred, 'name': name, 'aliases': aliases,
            'scripts': scripts, 'sources': sources,
            'prefork': (rng.random() < 0.6) if prefork is None else prefork,
            'other_codes': sorted({92, 93, 255, 254, (code + 1 - 92) % 164 + 92,
